@@ -258,7 +258,7 @@ func guard(c *caseJ, d []byte) []byte {
 
 func genOK(r *vh.Rng) *caseJ {
 	cfg, ascii := genCfgOK(r)
-	c := &caseJ{Mode: "ok", Cfg: cfg, InModel: ascii, Reader: r.PickStr("full", "full", "full", "half", "one")}
+	c := &caseJ{Mode: "ok", Cfg: cfg, InModel: true, ASCII: ascii, Reader: r.PickStr("full", "full", "full", "half", "one")}
 	seg := unhx(cfg.Seg)
 	segLF := bytes.Equal(seg, []byte("\n"))
 	withFull := r.Chance(0.5)
